@@ -214,11 +214,39 @@ def run_reject_scenario(p, wd):
             apply_corruption(work, calls)
         except Exception:
             continue      # second corruption of a pair no longer applicable
+        if " + " in desc and _still_wellformed(work, limit):
+            continue      # two edits that cancel structurally (e.g. insert + remove at one place) only change data values
         checks += 1
         judge_rejected(work, desc, coords, None if p.get("limit") is None else limit, fails)
         if len(fails) >= 12:
             break
     return {"fails": fails, "checks": checks}
+
+
+def _still_wellformed(work, limit):
+    """every level <= limit: each binary file is a clean concatenation of FABs and every box has, at its recorded offset, a FAB
+    with its index range and the header's field count (then the directory is not corrupted in the sense of C04)"""
+    try:
+        info = oracle.read(work)
+        nf = len(info["names"])
+        for lv in range(limit + 1):
+            lvi = info["levels"][lv]
+            scans = {}
+            for b in range(lvi["nboxes"]):
+                fn = lvi["files"][b]
+                fp = os.path.join(work, f"Level_{lv}", os.path.basename(fn))
+                if fn not in scans:
+                    scans[fn] = {s[3]: s for s in oracle.scan_file(fp)}
+                    end = max((s[4] + s[5] for s in scans[fn].values()), default=0)
+                    if end != os.path.getsize(fp):
+                        return False
+                sc = scans[fn].get(lvi["offsets"][b])
+                lo, hi = lvi["indexes"][b]
+                if sc is None or list(sc[0]) != list(lo) or list(sc[1]) != list(hi) or sc[2] != nf:
+                    return False
+        return True
+    except Exception:
+        return False
 
 
 # ----------------------------------------------------------------------------------------------------------
